@@ -192,6 +192,10 @@ def run_query(m, q):
             return {"ok": [[k, num(v)] for k, v in sim.y0.items()]}
         if kind == "tc":
             return run_tc(m, q[1])
+        if kind == "argnames":
+            return {"ok": list(m.get_arg_names(**flag_kwargs(q[1])))}
+        if kind == "argsftc":
+            return run_argsftc(m, q[1], q[2])
         if kind == "simupd":
             # a Simulator built on the model, with variables overridden before any simulation,
             # must not change what the model itself reports afterwards
@@ -204,6 +208,10 @@ def run_query(m, q):
         if kind == "args":
             s = m.get_args(_vars_arg(q[1]), t)
             return {"ok": sorted([k, num(v)] for k, v in s.items())}
+        if kind == "argsf":
+            # the selection AND its order are observable (Series index = get_arg_names order)
+            s = m.get_args(_vars_arg(q[1]), t, **flag_kwargs(q[3]))
+            return {"ok": [[k, num(v)] for k, v in s.items()]}
         if kind == "fluxes":
             s = m.get_fluxes(_vars_arg(q[1]), t)
             return {"ok": [[k, num(v)] for k, v in s.items()]}
@@ -221,6 +229,30 @@ def run_query(m, q):
             df = m.get_stoichiometries(_vars_arg(q[1]), t)
             return {"ok": canon_stoich({c: {r: num(df.loc[c, r]) for r in df.columns} for c in df.index})}
         raise ValueError(q)
+    except Exception as e:  # noqa: BLE001
+        return canon_exc(e)
+
+
+FLAG_NAMES = ["include_time", "include_variables", "include_parameters", "include_derived_parameters",
+              "include_derived_variables", "include_reactions", "include_surrogate_variables",
+              "include_surrogate_fluxes", "include_readouts"]
+
+
+def flag_kwargs(fl):
+    return dict(zip(FLAG_NAMES, [bool(x) for x in fl], strict=True))
+
+
+def run_argsftc(m, rows, fl):
+    """get_args_time_course with flags (no include_time there); rows in index order, columns in returned order"""
+    import pandas as pd
+
+    idx = [fexpr.to_float(Fraction(t)) for t, _ in rows]
+    df = pd.DataFrame([{k: fexpr.to_float(Fraction(v)) for k, v in st} for _, st in rows], index=idx)
+    kw = flag_kwargs(fl)
+    del kw["include_time"]
+    try:
+        out = m.get_args_time_course(df, **kw)
+        return {"ok": [[[k, num(v)] for k, v in out.loc[i].items()] for i in out.index]}
     except Exception as e:  # noqa: BLE001
         return canon_exc(e)
 
@@ -303,6 +335,14 @@ class SpecCircular(Exception):
     pass
 
 
+class SpecKeyError(Exception):
+    """a readout / computed coefficient names something the argument table does not hold (those names are not part
+    of the dependency check): Python raises KeyError(name)"""
+
+    def __init__(self, name):
+        self.name = name
+
+
 class Spec:
     """Order-free restatement: the value a name has is its function applied to the values
     of the names it mentions.  Used as the search oracle S; it never looks at any order."""
@@ -315,6 +355,7 @@ class Spec:
         self.rxns = dict(content.get("rxns", []))
         self.surs = dict(content.get("surs", []))
         self.data = dict(content.get("data", []))
+        self.readouts = dict(content.get("readouts", []))
         # providers: name -> ("fn", FN) | ("sur", sname, idx)
         self.prov = {}
         self.comps = {}  # component name -> required names
@@ -435,7 +476,7 @@ class Spec:
         return feval(cj["e"], [env_val[a] if a in env_val else self._late(a, env_val) for a in cj["args"]])
 
     def _late(self, a, env_val):
-        raise KeyError(a)
+        raise SpecKeyError(a)
 
     def flux_names(self):
         out = list(self.rxns)
@@ -507,14 +548,86 @@ class Spec:
                     changed = True
         return res
 
+    def arg_names(self, fl):
+        """declarative restatement of get_arg_names: the groups in the documented order, each group in
+        declaration order"""
+        t, v, p, dp, dv, r, sv, sf, ro = [bool(x) for x in fl]
+        op = self.only_params()
+        names = []
+        if t:
+            names.append("time")
+        if v:
+            names += list(self.vars)
+        if p:
+            names += list(self.pars)
+        if dv:
+            names += [k for k in self.derived if k not in op]
+        if dp:
+            names += [k for k in self.derived if k in op]
+        if r:
+            names += list(self.rxns)
+        if sv:
+            for s_ in self.surs.values():
+                fl_ = {f for f, _ in s_["st"]}
+                names += [o for o in s_["outs"] if o not in fl_]
+        if sf:
+            for s_ in self.surs.values():
+                names += [f for f, _ in s_["st"]]
+        if ro:
+            names += list(self.readouts)
+        return names
+
+    def args_sel(self, state, t, fl):
+        env = self.at(state, t)
+        vals = {k: v for k, v in env.items() if k not in self.data}
+        if fl[8]:
+            memo = {}
+
+            def ro_val(k, stack=()):
+                if k in memo:
+                    return memo[k]
+                if k in stack:
+                    raise SpecCircular
+                f = self.readouts[k]
+                xs = []
+                for a in f["args"]:
+                    if a in self.readouts:
+                        xs.append(ro_val(a, stack + (k,)))
+                    elif a in env:
+                        xs.append(env[a])
+                    else:
+                        raise SpecKeyError(a)
+                memo[k] = feval(f["e"], xs)
+                return memo[k]
+
+            for k in self.readouts:
+                vals[k] = ro_val(k)
+        return [[k, rat_str(vals[k])] for k in self.arg_names(fl)]
+
     def answer_tc(self, rows):
-        out = {"args": {"ok": []}, "fluxes": {"ok": []}, "rhs": {"ok": []}}
-        for t, st in rows:
-            env = self.at(dict(st), t)
-            out["args"]["ok"].append(sorted([k, rat_str(v)] for k, v in env.items() if k != "time" and k not in self.data))
-            out["fluxes"]["ok"].append(sorted([k, rat_str(env[k])] for k in self.flux_names()))
-            d = self.rhs(dict(st), t)
-            out["rhs"]["ok"].append(sorted([k, rat_str(d[k])] for k in self.vars))
+        out = {}
+
+        def part(name, fn):
+            try:
+                out[name] = {"ok": [fn(t, dict(st)) for t, st in rows]}
+            except SpecKeyError as e:
+                out[name] = {"err": ["KeyError", e.name]}
+
+        def p_args(t, st):
+            env = self.at(st, t)
+            return sorted([k, rat_str(v)] for k, v in env.items() if k != "time" and k not in self.data)
+
+        def p_fluxes(t, st):
+            env = self.at(st, t)
+            return sorted([k, rat_str(env[k])] for k in self.flux_names())
+
+        def p_rhs(t, st):
+            d = self.rhs(st, t)
+            return sorted([k, rat_str(d[k])] for k in self.vars)
+
+        part("args", p_args)
+        part("fluxes", p_fluxes)
+        part("rhs", p_rhs)
         return out
 
     def answer(self, q):
@@ -532,6 +645,15 @@ class Spec:
                 return {"ok": sorted([k, rat_str(Fraction(v["v"]))] for k, v in self.pars.items() if "v" in v)}
             if kind == "tc":
                 return self.answer_tc(q[1])
+            if kind == "argnames":
+                # only the two derived groups need the resolved model (and so reject a bad graph)
+                if q[1][3] or q[1][4]:
+                    self.check()
+                return {"ok": self.arg_names(q[1])}
+            if kind == "argsftc":
+                fl = list(q[2])
+                fl[0] = False
+                return {"ok": [self.args_sel(dict(st), t, fl) for t, st in q[1]]}
             if kind == "simupd":
                 ic = dict(self.init_conditions())
                 ic.update({k: rat_str(Fraction(v)) for k, v in q[1]})
@@ -544,6 +666,8 @@ class Spec:
             if kind == "args":
                 env = self.at(state, q[2])
                 return {"ok": sorted([k, rat_str(v)] for k, v in env.items() if k not in self.data)}
+            if kind == "argsf":
+                return {"ok": self.args_sel(state, q[2], q[3])}
             if kind == "fluxes":
                 env = self.at(state, q[2])
                 return {"ok": [[k, rat_str(env[k])] for k in self.flux_names()]}
@@ -559,6 +683,8 @@ class Spec:
             err = {"err": ["MissingDependenciesError", e.missing]}
         except SpecCircular:
             err = {"err": ["CircularDependencyError"]}
+        except SpecKeyError as e:
+            err = {"err": ["KeyError", e.name]}
         return {"args": err, "fluxes": err, "rhs": err} if q[0] == "tc" else err
 
 
@@ -566,7 +692,7 @@ class Spec:
 
 
 def gen_content(rng, *, n_vars=(1, 5), n_pars=(0, 4), n_comps=(1, 8), p_ia=0.3, p_sur=0.25,
-                p_time=0.2, shuffle=True, small=(1, 2, 3), p_data=0.0):
+                p_time=0.2, shuffle=True, small=(1, 2, 3), p_data=0.0, p_readouts=0.0):
     """Random well-formed content, acyclic and complete by construction, declaration
     order shuffled afterwards."""
     nv = rng.randint(*n_vars)
@@ -658,13 +784,39 @@ def gen_content(rng, *, n_vars=(1, 5), n_pars=(0, 4), n_comps=(1, 8), p_ia=0.3, 
             k = next(ia_iter)
             vars_.append([k, {"ia": mkfn(1)}])
             pool.append(k)
+    readouts = []
+    if rng.random() < p_readouts:
+        # readouts name anything the argument table holds, data sets, and readouts declared BEFORE them
+        # (readouts are evaluated in declaration order, F-C01-3)
+        ro_pool = list(pool)
+        for i in range(rng.randint(1, 3)):
+            n = rng.randint(1, min(3, max(1, len(ro_pool))))
+            args = [rng.choice(ro_pool) for _ in range(n)] if ro_pool else []
+            readouts.append([f"ro{i}", {"args": args, "e": fexpr.gen_expr(rng, len(args), 1)}])
+            ro_pool.append(f"ro{i}")
     if shuffle:
         for lst in (vars_, pars, derived, rxns, surs):
             rng.shuffle(lst)
     out = {"vars": vars_, "pars": pars, "derived": derived, "rxns": rxns, "surs": surs}
     if data:
         out["data"] = data
+    if readouts:
+        out["readouts"] = readouts
     return out
+
+
+def gen_flags(rng):
+    """nine include_* flags; biased so that single groups, everything and random mixtures all occur"""
+    r = rng.random()
+    if r < 0.15:
+        return [True] * 9
+    if r < 0.3:
+        fl = [False] * 9
+        fl[rng.randrange(9)] = True
+        return fl
+    if r < 0.4:
+        return [True] * 8 + [False]
+    return [rng.random() < 0.5 for _ in range(9)]
 
 
 def gen_state(rng, content, vals=(0, 1, 2, 3, 5)):
@@ -675,4 +827,5 @@ def shape_of(content) -> str:
     nia = sum(1 for _, v in content["vars"] + content["pars"] if "ia" in v)
     ndyn = sum(1 for _, r in content["rxns"] for _, c in r["st"] if "c" not in c)
     return (f"v{len(content['vars'])}p{len(content['pars'])}d{len(content['derived'])}"
-            f"r{len(content['rxns'])}s{len(content['surs'])}ia{nia}dc{min(ndyn, 3)}")
+            f"r{len(content['rxns'])}s{len(content['surs'])}ia{nia}dc{min(ndyn, 3)}"
+            + (f"ro{len(content['readouts'])}" if content.get("readouts") else ""))
